@@ -63,8 +63,13 @@ def g_mapper(ent):
     return f"(fun _ j => tbl [{es}] (Ok tt) (Z.of_nat j))"
 
 
+LIVE_MAPPERS = []       # mapper callbacks of the operator instance being run (their invocation count is reset
+                        # after a warm-up subscription: tables are indexed by invocation)
+
+
 def make_mapper(env, ent):
     calls = [0]
+    LIVE_MAPPERS.append(calls)
 
     def mapper(x):
         j = calls[0]
@@ -89,30 +94,30 @@ def table():
         return {"scheduler": env.scheduler} if rng.random() < 0.4 else {}
 
     # ------------------------------------------------------------- C15
-    def g_delay(rng):
+    def g_delay(rng, t0=0):
         rel = rng.random() < 0.7
-        v = rng.choice(DUR) if rel else rng.choice([-5, 0, 5, 10, 20])
+        v = rng.choice(DUR + [-5]) if rel else rng.choice([-5, 0, 5, 10, 20])
         pick = rng.random()
-        t = as_time(rng, v) if rel else absolute(v)
+        t = as_time(rng, v) if rel else absolute(t0 + v)   # absolute values: offsets from the subscription instant
         def build(env, ss):
             return ss[0].pipe(ops.delay(t, **({"scheduler": env.scheduler} if pick < 0.4 else {})))
-        d = v                                   # subscription is at clock 0
-        return dict(build=build, coq=f"x_delay_at {g_tspec(rel, v)} 0", n_static=1, spec=("delay", d),
-                    bounds=[], gaps=[max(d, 0)], **ZT)
+        d = v                                   # relative to the subscription instant t0
+        return dict(build=build, coq=f"x_delay_at {g_tspec(rel, v if rel else t0 + v)} {gz(t0)}", n_static=1,
+                    spec=("delay", d), bounds=[], gaps=[max(d, 0)], **ZT)
     T["delay"] = g_delay
 
-    def g_delay_subscription(rng):
+    def g_delay_subscription(rng, t0=0):
         rel = rng.random() < 0.7
-        v = rng.choice(DUR) if rel else rng.choice([-5, 0, 5, 10, 20])
-        t = as_time(rng, v) if rel else absolute(v)
+        v = rng.choice(DUR + [-5]) if rel else rng.choice([-5, 0, 5, 10, 20])
+        t = as_time(rng, v) if rel else absolute(t0 + v)
         pick = rng.random()
         def build(env, ss):
             return ss[0].pipe(ops.delay_subscription(t, **({"scheduler": env.scheduler} if pick < 0.4 else {})))
-        return dict(build=build, coq=f"x_delay_subscription {g_tspec(rel, v)} 0", n_static=1,
-                    spec=("delay_subscription", max(v, 0)), bounds=[max(v, 0)], gaps=[], **ZT)
+        return dict(build=build, coq=f"x_delay_subscription {g_tspec(rel, v if rel else t0 + v)} {gz(t0)}",
+                    n_static=1, spec=("delay_subscription", max(v, 0)), bounds=[max(v, 0)], gaps=[], **ZT)
     T["delay_subscription"] = g_delay_subscription
 
-    def g_delay_with_mapper(rng):
+    def g_delay_with_mapper(rng, t0=0):
         has_sub = rng.random() < 0.4
         ent = mapper_table(rng)
         def build(env, ss):
@@ -125,7 +130,7 @@ def table():
                     bounds=[], gaps=[], **ZT)
     T["delay_with_mapper"] = g_delay_with_mapper
 
-    def g_timestamp(rng):
+    def g_timestamp(rng, t0=0):
         pick = rng.random()
         def build(env, ss):
             return ss[0].pipe(ops.timestamp(**({"scheduler": env.scheduler} if pick < 0.4 else {})))
@@ -133,16 +138,16 @@ def table():
                     **dict(ZZ, enc=enc_stamp))
     T["timestamp"] = g_timestamp
 
-    def g_time_interval(rng):
+    def g_time_interval(rng, t0=0):
         pick = rng.random()
         def build(env, ss):
             return ss[0].pipe(ops.time_interval(**({"scheduler": env.scheduler} if pick < 0.4 else {})))
-        return dict(build=build, coq="x_time_interval 0", n_static=1, spec=("time_interval",), bounds=[], gaps=[],
+        return dict(build=build, coq=f"x_time_interval {gz(t0)}", n_static=1, spec=("time_interval",), bounds=[], gaps=[],
                     **dict(ZZ, enc=enc_interval))
     T["time_interval"] = g_time_interval
 
     # ------------------------------------------------------------- C16
-    def g_debounce(rng, alias=False):
+    def g_debounce(rng, t0=0, alias=False):
         d = rng.choice(DUR)
         t = as_time(rng, d)
         pick = rng.random()
@@ -152,9 +157,9 @@ def table():
         return dict(build=build, coq=f"x_debounce {gz(d)}", n_static=1, spec=("debounce", d), bounds=[], gaps=[d],
                     **ZT)
     T["debounce"] = g_debounce
-    T["throttle_with_timeout"] = lambda rng: g_debounce(rng, True)
+    T["throttle_with_timeout"] = lambda rng, t0=0: g_debounce(rng, t0, True)
 
-    def g_throttle_with_mapper(rng):
+    def g_throttle_with_mapper(rng, t0=0):
         ent = mapper_table(rng)
         def build(env, ss):
             return ss[0].pipe(ops.throttle_with_mapper(make_mapper(env, ent)))
@@ -162,7 +167,7 @@ def table():
                     spec=("throttle_with_mapper", ent), dynamic=3, bounds=[], gaps=[], **ZT)
     T["throttle_with_mapper"] = g_throttle_with_mapper
 
-    def g_throttle_first(rng):
+    def g_throttle_first(rng, t0=0):
         w = rng.choice([5, 10, 10, 20])
         t = as_time(rng, w)
         pick = rng.random()
@@ -172,14 +177,14 @@ def table():
                     bounds=[], gaps=[w], **ZT)
     T["throttle_first"] = g_throttle_first
 
-    def g_sample_observable(rng):
+    def g_sample_observable(rng, t0=0):
         def build(env, ss):
             return ss[0].pipe(ops.sample(ss[1]))
         return dict(build=build, coq="x_sample_observable", n_static=2, spec=("sample_observable",), bounds=[],
                     gaps=[], **ZT)
     T["sample_observable"] = g_sample_observable
 
-    def g_sample_time(rng):
+    def g_sample_time(rng, t0=0):
         p = rng.choice([5, 10, 10, 20])
         t = as_time(rng, p)
         pick = rng.random()
@@ -190,7 +195,7 @@ def table():
     T["sample_time"] = g_sample_time
 
     # ------------------------------------------------------------- C17
-    def g_take_with_time(rng):
+    def g_take_with_time(rng, t0=0):
         d = rng.choice(DUR)
         t = as_time(rng, d)
         pick = rng.random()
@@ -200,7 +205,7 @@ def table():
                     bounds=[d], gaps=[], **ZT)
     T["take_with_time"] = g_take_with_time
 
-    def g_skip_with_time(rng):
+    def g_skip_with_time(rng, t0=0):
         d = rng.choice(DUR)
         t = as_time(rng, d)
         pick = rng.random()
@@ -210,23 +215,24 @@ def table():
                     bounds=[d], gaps=[], **ZT)
     T["skip_with_time"] = g_skip_with_time
 
-    def g_until(rng, take):
+    def g_until(rng, t0, take):
         rel = rng.random() < 0.5
         v = rng.choice(DUR) if rel else rng.choice([-5, 0, 5, 10, 20])
-        t = as_time(rng, v) if rel else absolute(v)
+        t = as_time(rng, v) if rel else absolute(t0 + v)
         pick = rng.random()
         op = ops.take_until_with_time if take else ops.skip_until_with_time
         def build(env, ss):
             return ss[0].pipe(op(t, **({"scheduler": env.scheduler} if pick < 0.4 else {})))
-        coq = (f"x_take_until_with_time {g_tspec(rel, v)} 0" if take
-               else f"x_skip_until_with_time false {g_tspec(rel, v)} 0")
+        ts = g_tspec(rel, v if rel else t0 + v)
+        coq = (f"x_take_until_with_time {ts} {gz(t0)}" if take
+               else f"x_skip_until_with_time false {ts} {gz(t0)}")
         return dict(build=build, coq=coq, n_static=1,
                     spec=("take_until_with_time" if take else "skip_until_with_time", max(v, 0)),
                     bounds=[max(v, 0)], gaps=[], **ZT)
-    T["take_until_with_time"] = lambda rng: g_until(rng, True)
-    T["skip_until_with_time"] = lambda rng: g_until(rng, False)
+    T["take_until_with_time"] = lambda rng, t0=0: g_until(rng, t0, True)
+    T["skip_until_with_time"] = lambda rng, t0=0: g_until(rng, t0, False)
 
-    def g_last(rng, take):
+    def g_last(rng, t0, take):
         d = rng.choice(DUR)
         t = as_time(rng, d)
         pick = rng.random()
@@ -236,24 +242,24 @@ def table():
         name = "take_last_with_time" if take else "skip_last_with_time"
         return dict(build=build, coq=f"x_{name} {gz(d)}", n_static=1, spec=(name, d), bounds=[], gaps=[d],
                     from_end=[d], **ZT)
-    T["take_last_with_time"] = lambda rng: g_last(rng, True)
-    T["skip_last_with_time"] = lambda rng: g_last(rng, False)
+    T["take_last_with_time"] = lambda rng, t0=0: g_last(rng, t0, True)
+    T["skip_last_with_time"] = lambda rng, t0=0: g_last(rng, t0, False)
 
-    def g_timeout(rng):
+    def g_timeout(rng, t0=0):
         rel = rng.random() < 0.7
         v = rng.choice([0, 5, 10, 10, 20]) if rel else rng.choice([-5, 0, 5, 10, 20, 30])
-        t = as_time(rng, v) if rel else absolute(v)
+        t = as_time(rng, v) if rel else absolute(t0 + v)
         other = rng.random() < 0.5
         pick = rng.random()
         def build(env, ss):
             kw = {"scheduler": env.scheduler} if pick < 0.4 else {}
             return ss[0].pipe(ops.timeout(t, ss[1], **kw) if other else ops.timeout(t, **kw))
-        return dict(build=build, coq=f"x_timeout {g_tspec(rel, v)} {'true' if other else 'false'} 0",
+        return dict(build=build, coq=f"x_timeout {g_tspec(rel, v if rel else t0 + v)} {'true' if other else 'false'} {gz(t0)}",
                     n_static=2 if other else 1, spec=("timeout", rel, v, other),
                     bounds=[] if rel else [max(v, 0)], gaps=[v] if rel else [], **ZT)
     T["timeout"] = g_timeout
 
-    def g_timeout_with_mapper(rng):
+    def g_timeout_with_mapper(rng, t0=0):
         has_first = rng.random() < 0.6
         has_other = rng.random() < 0.5
         has_mapper = rng.random() < 0.75
@@ -334,46 +340,136 @@ IMPORTS = "Base.Prelude Base.CaseLib Ops.Machine Ops.Multi Ops.MultiCase Ops.Tim
 
 
 def time_of(res, tag):
-    return 0 if tag == 0 else res["inputs"][tag - 1][0]
+    """instant of input [tag], RELATIVE to the subscription instant t0 (the oracles reason in time since
+    subscription; the machines get the absolute clock readings and t0)"""
+    return 0 if tag == 0 else res["inputs"][tag - 1][0] - res.get("t0", 0)
 
 
 CURRENT_CASE = [None]      # (operator name, case seed) of the case being evaluated (for cross-run oracles)
 
 
-MODE = {"p_dispose": 0.15, "p_late": 0.08}     # default generation mode; a check may run another one (recorded per case)
+# default generation mode; a check may run another one (recorded per case).  p_warm: share of cases in which the
+# SAME observable object is subscribed once before (warm-up, abandoned) -- per-subscription state must start fresh;
+# t0s: clock readings at the measured subscription (the proxy clock no longer starts every run at 0)
+MODE = {"p_dispose": 0.15, "p_late": 0.08}
+P_WARM = 0.35
+T0S = [0, 0, 35, 200, 1000]
 
 
 def make_case(name, case_seed, mode=None):
-    """one seeded case: operator instance, timeline, dispose instant, horizon -- a function of
-    (name, case_seed, mode) only, so that a replay file needs nothing else"""
+    """one seeded case: subscription instant t0, operator instance, timeline (absolute instants), dispose
+    instant, horizon, warm-up -- a function of (name, case_seed, mode) only, so that a replay file needs
+    nothing else"""
     import random
     mode = mode or MODE
     r = random.Random(case_seed)
-    inst = table()[name](r)
+    t0 = r.choice(mode.get("t0s", T0S))
+    inst = table()[name](r, t0)
     nsrc = inst["n_static"] + inst.get("dynamic", 0)
-    evs = gen_timeline(r, nsrc, inst.get("bounds", ()), inst.get("gaps", ()), inst.get("from_end", ()),
+    rel = gen_timeline(r, nsrc, inst.get("bounds", ()), inst.get("gaps", ()), inst.get("from_end", ()),
                        p_none=mode.get("p_none", 0.12))
     disp = None
     u = r.random()
-    if u < mode["p_dispose"] and evs:
-        disp = r.choice(evs)[0] + r.choice([0, 0, 5])
+    if u < mode["p_dispose"] and rel:
+        disp = r.choice(rel)[0] + r.choice([0, 0, 5])
     elif u < mode["p_dispose"] + mode["p_late"]:
         # LATE dispose: after every source event and every timer due by then (an operator that handed over to
         # a fallback / later source which never terminates is still subscribed to it at that point)
-        disp = max([e[0] for e in evs] + [0]) + r.choice([5, 30, 100])
+        disp = max([e[0] for e in rel] + [0]) + r.choice([5, 30, 100])
     horizon = None
     if inst.get("periodic"):
-        horizon = max([e[0] for e in evs] + [0]) + 3 * inst["periodic"]
-    return inst, evs, disp, horizon
+        horizon = max([e[0] for e in rel] + [0]) + 3 * inst["periodic"]
+    warm = None
+    if r.random() < mode.get("p_warm", P_WARM):
+        # an earlier subscription of the same observable object: its own timeline on the clock BEFORE t0 (all at
+        # clock 0 when t0 = 0), timers due by then fired, abandoned (disposed) before the measured subscription
+        wev = gen_timeline(r, nsrc, inst.get("bounds", ()), inst.get("gaps", ()), inst.get("from_end", ()),
+                           nonconforming=0.0)
+        if r.random() < 0.5:
+            wev = [e for e in wev if e[2][0] == "N"]          # abandoned in mid-flight
+        start = r.choice([0, max(t0 - 30, 0), max(t0 - 10, 0)])
+        wev = [(min(start + t, t0), k, ev) for (t, k, ev) in wev]
+        warm = {"start": start, "end": t0, "events": wev}
+    inst["t0"] = t0
+    inst["warm"] = warm
+    evs = [(t0 + t, k, ev) for (t, k, ev) in rel]
+    return inst, evs, (None if disp is None else t0 + disp), (None if horizon is None else t0 + horizon)
+
+
+def _noop(*a):
+    return None
+
+
+def warm_up(env, obs, n_static, warm):
+    """subscribe [obs] once on the proxy scheduler, run its own little timeline (source events and due timers in
+    time order, clock advancing), dispose it, and wipe the harness state exactly as k2m.run_multi does after its
+    own warm-up (log, escapes, dynamically created sources, dead observer records, timers, counters)"""
+    env.now = warm["start"]
+    try:
+        w = obs.subscribe(_noop, _noop, _noop, scheduler=env.scheduler)
+    except Exception:
+        w = None
+    pending = list(warm["events"])
+    for _ in range(80):
+        cands = []
+        if pending:
+            cands.append((pending[0][0], 0))
+        if env.timers:
+            tag = min(env.timers, key=lambda t: (env.timers[t][0], t))
+            cands.append((env.timers[tag][0], 1))
+        if not cands:
+            break
+        t, what = min(cands)
+        if t > warm["end"]:
+            break
+        env.now = max(env.now, t)
+        try:
+            if what == 0:
+                _, k, ev = pending.pop(0)
+                if k < len(env.sources):
+                    env.sources[k].push(ev)
+            else:
+                env.scheduler.fire(tag)
+        except Exception:
+            pass
+    env.now = max(env.now, warm["end"])
+    if w is not None:
+        try:
+            w.dispose()
+        except Exception:
+            pass
+    del env.log[:]
+    del env.escapes[:]
+    env.sources = env.sources[:n_static]
+    for s in env.sources:
+        s.observers = [r for r in s.observers if r[1]]
+    env.timers.clear()
+    env.n_timers = 0
+    env.tag = 0
 
 
 def run_case(name, case_seed, mode=None):
     inst, evs, disp, horizon = make_case(name, case_seed, mode)
-    res = k2m.run_multi(inst["build"], inst["n_static"], evs, use_scheduler=True, dispose_at=disp, horizon=horizon)
+    t0, warm = inst["t0"], inst["warm"]
+
+    def build(env, ss):
+        # k2m.Env starts its clock at 0 and k2m.run_multi subscribes right after build() returns: the warm-up
+        # subscription and the clock offset are therefore applied here, on the env handed to build()
+        del LIVE_MAPPERS[:]
+        obs = inst["build"](env, ss)
+        if warm is not None:
+            warm_up(env, obs, inst["n_static"], warm)
+            for calls in LIVE_MAPPERS:
+                calls[0] = 0              # callbacks indexed by invocation restart their count
+        env.now = t0
+        return obs
+    res = k2m.run_multi(build, inst["n_static"], evs, use_scheduler=True, dispose_at=disp, horizon=horizon)
     if res["build_error"] is not None:
         raise RuntimeError(f"{name}: build error {res['build_error']!r}")
-    res["horizon"] = horizon
-    res["dispose_at"] = disp
+    res["t0"] = t0
+    res["warm"] = warm
+    res["horizon"] = None if horizon is None else horizon - t0          # relative, as every instant the oracles see
+    res["dispose_at"] = None if disp is None else disp - t0
     return inst, evs, disp, res
 
 
@@ -387,7 +483,8 @@ def run_timed(chk, pid, names, oracle, ncase=None, only=None, mode=None):
     per_op = {}
     nontrivial = set()
     hist = {"with_dispose": 0, "same_instant_events": 0, "ticks_delivered": 0, "falsy_elements": 0,
-            "event_exactly_at_a_due_time": 0, "absolute_time_argument": 0}
+            "event_exactly_at_a_due_time": 0, "absolute_time_argument": 0, "after_a_warmup_subscription": 0,
+            "subscribed_at_nonzero_clock": 0}
     for name in names:
         for ci in range(ncase):
             case_seed = chk.rng.getrandbits(48)
@@ -401,6 +498,10 @@ def run_timed(chk, pid, names, oracle, ncase=None, only=None, mode=None):
                 hist["absolute_time_argument"] += 1
             if disp is not None:
                 hist["with_dispose"] += 1
+            if res["warm"] is not None:
+                hist["after_a_warmup_subscription"] += 1
+            if res["t0"]:
+                hist["subscribed_at_nonzero_clock"] += 1
             chk.cov["evaluations"] += 1
             per_op[name] = per_op.get(name, 0) + 1
             ticks = [i for i in res["inputs"] if i[1][0] == "tick"]
@@ -422,6 +523,7 @@ def run_timed(chk, pid, names, oracle, ncase=None, only=None, mode=None):
                 chk.violation(f"{pid}|{name}|{v[:50]}",
                               {"operator": name, "machine": inst["coq"], "spec": repr(inst["spec"]),
                                "source events (time_ms, source, notification)": repr(evs),
+                               "subscribed_at_clock": res["t0"], "warm-up subscription before": repr(res["warm"]),
                                "dispose_at": disp, "inputs (now, event)": gi, "observed trace": gt, "what": v,
                                "cases": cases_to_replay,
                                "how": "each case = (operator, case seed): harness/timed_table.py run_case() rebuilds "
@@ -462,7 +564,7 @@ def view(res):
     steps = comb_oracle.timeline(res)
     em = [(time_of(res, tag), tag, a, b) for (tag, a, b) in comb_oracle.emitted(steps)]
     acc = [(time_of(res, tag), tag, k, ev) for (tag, k, ev) in comb_oracle.accepted(steps)]
-    disposed = [t for t, i in res["inputs"] if i[0] == "dispose"]
+    disposed = [t - res.get("t0", 0) for t, i in res["inputs"] if i[0] == "dispose"]
     return dict(steps=steps, em=em, acc=acc, dispose_time=disposed[0] if disposed else None,
                 dispose_tag=next((j + 1 for j, (t, i) in enumerate(res["inputs"]) if i[0] == "dispose"), None))
 
@@ -531,6 +633,7 @@ def replay_cases(pid, oracle, path, reset=None):
         inst, evs, disp, res = run_case(name, case_seed, mode)
         print(f"case {name} seed={case_seed}: {inst['spec']!r}")
         print(f"  source events (time_ms, source, notification): {evs!r}   dispose_at={disp}")
+        print(f"  subscribed at clock {res['t0']}; warm-up subscription before: {res['warm']!r}")
         print(f"  delivered inputs: {res['inputs']!r}")
         print(f"  boundary log (input position, kind, a, b): {res['log']!r}")
         v = oracle(name, inst, res)
